@@ -318,31 +318,31 @@ class AoefSim:
     @staticmethod
     def _move_companions(source, target, move):
         """Whoever copies or moves a document takes along what the library
-        put next to it (a checksum or index file named after the document),
-        and does not leave the destination's old companions behind."""
+        put next to it: files named after the document or after its stem
+        (`a.json.sha256`, `.a.json.lock`, `a.sha256`). Nothing else at the
+        destination is touched -- what an earlier, killed save left there
+        stays there."""
         sdir, sname = os.path.split(source)
         tdir, tname = os.path.split(target)
-
-        def companions(directory, name):
-            try:
-                names = sorted(os.listdir(directory))
-            except OSError:
-                return []
-            return [
-                n for n in names
-                if n != name and (n.startswith(name) or n.startswith("." + name))
-                and os.path.isfile(os.path.join(directory, n))
-            ]
-
-        for n in companions(tdir, tname):
-            os.unlink(os.path.join(tdir, n))
-        for n in companions(sdir, sname):
-            new = n.replace(sname, tname, 1)
-            data = open(os.path.join(sdir, n), "rb").read()
-            with open(os.path.join(tdir, new), "wb") as fp:
-                fp.write(data)
-            if move:
-                os.unlink(os.path.join(sdir, n))
+        sstem, tstem = os.path.splitext(sname)[0], os.path.splitext(tname)[0]
+        try:
+            names = sorted(os.listdir(sdir))
+        except OSError:
+            return
+        for n in names:
+            if n == sname or not os.path.isfile(os.path.join(sdir, n)):
+                continue
+            for old, new in ((sname, tname), ("." + sname, "." + tname),
+                             (sstem + ".", tstem + "."),
+                             ("." + sstem + ".", "." + tstem + ".")):
+                if n.startswith(old):
+                    with open(os.path.join(sdir, n), "rb") as fp:
+                        data = fp.read()
+                    with open(os.path.join(tdir, new + n[len(old):]), "wb") as fp:
+                        fp.write(data)
+                    if move:
+                        os.unlink(os.path.join(sdir, n))
+                    break
 
     # ------------------------------------------- in-memory documents (to_aeof)
 
@@ -487,6 +487,9 @@ class AoefSim:
         self.record(op, reply["outcome"], edits=reply.get("edits"),
                     obj=sha(jdump(reply["canon"])) if "canon" in reply else None)
         self.trace.append(("edit", len(reply.get("edits") or [])))
+        if reply["outcome"] == "inconsistent":
+            handle["alive"] = False  # nothing further is claimed about it
+            self.probes.hit("edit:left-one-identifier-with-two-contents")
         if reply["outcome"] == "ack":
             # new content: what is saved next starts a new history
             handle.update(canon=reply["canon"], cycles=0)
